@@ -71,7 +71,7 @@ def check_list(points, tol):
     return out, deleted
 
 
-def check_predicate(points, tol):
+def check_predicate(points, tol, ref_slack=1e-9):
     """points_in_tolerance(p, tol) == (max_dist_from_n_points(p) < tol), ties skipped."""
     plot_utils = _lib()
     try:
@@ -87,7 +87,7 @@ def check_predicate(points, tol):
     if bool(fast) != (exact2 < tol2):
         out.append(("pred_fast", f"points_in_tolerance({points}, {tol}) = {fast!r}; the largest "
                     f"exact squared distance is {exact2} vs tol^2 {tol2}"))
-    if abs(ref - float(exact2) ** 0.5) > 1e-9:
+    if abs(ref - float(exact2) ** 0.5) > ref_slack:
         out.append(("pred_ref", f"max_dist_from_n_points({points}) = {ref!r}, exact "
                     f"{float(exact2) ** 0.5!r}"))
     if bool(fast) != (ref < tol) and abs(ref - tol) > 1e-12:
@@ -151,6 +151,60 @@ def _pred_chunk(args):
     return part
 
 
+def scaled_cases(ctx):
+    """Long oblique chords with an interior vertex a fixed multiple of the tolerance off the
+    chord (well away from the threshold on either side): coordinate magnitudes up to ~1e8 with
+    tolerances down to 1e-3, where a numerically careless distance formula has lost all its
+    digits.  The oracle is exact on the float coordinates actually handed over."""
+    dirs = [(3, 1), (1, 3), (-2, 5), (7, -3)]
+    scales = [1e3, 1e5, 1e6, 1e7]
+    origins = [(0.0, 0.0), (1e6, -2e6), (0.1, 0.2)]
+    factors = [0.25, -0.25, 0.5, -0.5, 2.0, -2.0, 4.0, -4.0]
+    tols = [0.001, 0.01, 0.1]
+    if ctx.thorough:
+        dirs += [(1, 1), (5, 4), (-9, -2)]
+        scales += [1e4, 3e7]
+        factors += [0.75, -0.75, 1.5, -1.5]
+    out = []
+    for (d_x, d_y), scale, (o_x, o_y), tol in itertools.product(dirs, scales, origins, tols):
+        a_pt = (o_x, o_y)
+        b_pt = (o_x + scale * d_x, o_y + scale * d_y)
+        norm = (d_x * d_x + d_y * d_y) ** 0.5
+        n_x, n_y = -d_y / norm, d_x / norm
+        verts = {}
+        for par in (0.25, 0.5, 0.8):
+            for fac in factors:
+                verts[(par, fac)] = (a_pt[0] + par * (b_pt[0] - a_pt[0]) + fac * tol * n_x,
+                                     a_pt[1] + par * (b_pt[1] - a_pt[1]) + fac * tol * n_y)
+                out.append(((a_pt, verts[(par, fac)], b_pt), tol))
+        out.append(((a_pt, verts[(0.25, 0.5)], verts[(0.5, 4.0)], b_pt), tol))
+        out.append(((a_pt, verts[(0.25, -0.25)], verts[(0.5, 0.5)], verts[(0.8, 0.25)], b_pt), tol))
+    return out
+
+
+def _scaled_chunk(cases):
+    part = core.Part()
+    for points, tol in cases:
+        chord = ((points[-1][0] - points[0][0]) ** 2 + (points[-1][1] - points[0][1]) ** 2) ** 0.5
+        bad, deleted = check_list(points, tol)
+        bad_pred, tie = check_predicate(points, tol, ref_slack=1e-9 + 4e-16 * chord)
+        part.count("cases")
+        part.count("predicate_cases")
+        part.count("scaled_cases")
+        if deleted:
+            part.count("nontrivial")
+        if tie:
+            part.count("predicate_ties_skipped")
+        for clause, msg in bad:
+            part.violation(f"{clause}:{points}:{tol}", msg,
+                           {"kind": "list", "points": [list(p) for p in points], "tol": tol})
+        for clause, msg in bad_pred:
+            part.violation(f"{clause}:{points}:{tol}", msg,
+                           {"kind": "pred", "points": [list(p) for p in points], "tol": tol,
+                            "ref_slack": 1e-9 + 4e-16 * chord})
+    return part
+
+
 def long_lists(ctx):
     """Length 7..9: points of one line with one off-line point in every position."""
     line = [(k, 0) for k in range(5)]
@@ -193,6 +247,8 @@ def run(ctx):
         pred += list(itertools.product(LATTICE, repeat=5))[::7]
     for chunk in core.split(pred, 16):
         jobs.append(("pred", (chunk, tols + [0.7071067811865476, 1.4142135623730951])))
+    for chunk in core.split(scaled_cases(ctx), 16):
+        jobs.append(("scaled", chunk))
     part = core.fan_out(ctx, _dispatch, jobs)
     cnt = part.counters
     total = cnt.get("cases", 0) + cnt.get("predicate_cases", 0)
@@ -204,12 +260,15 @@ def run(ctx):
         "distinct_nontrivial": cnt.get("nontrivial", 0),
         "rule": f"all vertex lists of length 0..{max_len} over the 3x3 lattice x tolerances "
                 f"{tols}; lists of length 7-9 on a line with one off-line point; all 4-point "
-                "(and 5-point) tuples for the predicate comparison; non-trivial = simplification "
+                "(and 5-point) tuples for the predicate comparison; long oblique chords (1e3..1e7 "
+                "units, offsets to 2e6) with vertices 0.25..4 tolerances off the chord; "
+                "non-trivial = simplification "
                 "deleted at least one vertex; all (list, tolerance) pairs distinct",
         "samples": core.rotate(part.samples, ctx.seed, 4) or
         [{"points": [[0, 0], [1, 0], [2, 0]], "tolerance": 0.5}],
         "multi_vertex_runs": cnt.get("multi_vertex_runs", 0),
         "long_run_cases": cnt.get("long_run_cases", 0),
+        "scaled_cases": cnt.get("scaled_cases", 0),
         "predicate_cases": cnt.get("predicate_cases", 0),
         "predicate_ties_skipped": cnt.get("predicate_ties_skipped", 0),
         "exhaustive": True,
@@ -221,11 +280,13 @@ def run(ctx):
 
 
 def _dispatch(job):
-    return {"lists": _lists_chunk, "collinear": _collinear_chunk, "pred": _pred_chunk}[job[0]](job[1])
+    return {"lists": _lists_chunk, "collinear": _collinear_chunk, "pred": _pred_chunk,
+            "scaled": _scaled_chunk}[job[0]](job[1])
 
 
 def replay(case):
     points = tuple(tuple(p) for p in case["points"])
     if case["kind"] == "pred":
-        return [m for _c, m in check_predicate(points, case["tol"])[0]]
+        return [m for _c, m in check_predicate(points, case["tol"],
+                                               case.get("ref_slack", 1e-9))[0]]
     return [m for _c, m in check_list(points, case["tol"])[0]]
